@@ -225,7 +225,86 @@ func scribbleV2(txns []types.V2Transaction) {
 	}
 }
 
+// runC14Full is the 1-in-12 variant with a pool at its weight limit: heavy
+// transactions (~0.9 of a block each) are submitted until eviction gets
+// involved; then, back to back and with no pool query between them, a fresh
+// heavy transaction and one that is already pooled (with its pooled
+// ancestors). An answer of known=true means that all of them are in the pool
+// afterwards; listing and lookup agree throughout.
+func runC14Full(e *sim.Env) {
+	now := time.Now()
+	net := gen.NewNet(e, now, gen.NetOpts{MaxHeight: 60, Regime: "v2"})
+	tree := gen.NewTree(net)
+	s := newChainSUT(e, net, simdisk.New())
+	bo := gen.BlockOpts{Mix: gen.PayMix, MaxTx: 3, OrderSafe: true, Now: now, Strict: genStrict, Miner: net.Actors[0].Addr}
+	tip := buildChain(e, "C14", s, tree, e.Range(int(net.Network.MaturityDelay)+4, int(net.Network.MaturityDelay)+12), bo)
+	e.Shape("full-pool")
+	e.Nontrivial = true
+	heavyTxn := func(tb *gen.TxBuilder) (types.V2Transaction, bool) {
+		var txn types.V2Transaction
+		txn.ArbitraryData = make([]byte, 1_800_000)
+		copy(txn.ArbitraryData, e.Bytes(8))
+		txn.MinerFee = types.Siacoins(uint32(e.Range(1, 50)))
+		if !tb.FundV2(&txn, txn.MinerFee) {
+			return txn, false
+		}
+		tb.SignV2(&txn)
+		return txn, tb.CommitV2("v2big", txn)
+	}
+	builder := func(p poolSnap) *gen.TxBuilder {
+		tb := gen.NewTxBuilder(e, tip.L)
+		tb.OrderSafe, tb.UsedEnds, tb.Strict = true, tree.UsedEnds, genStrict
+		tb.Adopt(p.v1, p.v2)
+		return tb
+	}
+	basis := tip.Index()
+	for i, n := 0, e.Range(12, 18); i < n; i++ {
+		e.Step()
+		before := snapPool(e, "C14", s.cm)
+		tb := builder(before)
+		txn, ok := heavyTxn(tb)
+		if !ok {
+			break
+		}
+		if i < 9 || e.Chance(1, 2) {
+			var err error
+			e.Guard("C14.panic", "AddV2PoolTransactions", func() { _, err = s.cm.AddV2PoolTransactions(basis, []types.V2Transaction{txn.DeepCopy()}) })
+			if err != nil {
+				e.Violationf("C14.valid-accepted", "error:heavy", "a valid heavy transaction was rejected: %v", err)
+			}
+			continue
+		}
+		// back to back
+		j := e.Intn(len(before.v2))
+		again := poolSubsetV2(before.v2, func(i int) bool { return i == j }, nil)
+		var err1, err2 error
+		var known2 bool
+		e.Guard("C14.panic", "AddV2PoolTransactions(back to back)", func() {
+			_, err1 = s.cm.AddV2PoolTransactions(basis, []types.V2Transaction{txn.DeepCopy()})
+			known2, err2 = s.cm.AddV2PoolTransactions(basis, again)
+		})
+		after := snapPool(e, "C14", s.cm)
+		e.Logf("heavy Add (err=%v) then Add(pooled %v + %d ancestors) -> known=%v err=%v; pool %d -> %d", err1 != nil, before.v2[j].ID(), len(again)-1, known2, err2 != nil, len(before.ids), len(after.ids))
+		e.Shape("back-to-back", fmt.Sprint(known2), fmt.Sprint(err2 != nil), fmt.Sprint(len(after.ids) < len(before.ids)))
+		if err2 == nil && known2 {
+			for _, t := range again {
+				if _, in := after.ids[t.ID()]; !in {
+					e.Violationf("C14.known-flag", "known-but-not-pooled", "a submission right after one that filled the pool answered known=true for transaction %v, which the pool does not hold (pool %d -> %d transactions)", t.ID(), len(before.ids), len(after.ids))
+				}
+			}
+		}
+		if len(after.ids) < len(before.ids) {
+			e.Probe("eviction_between_back_to_back_submissions")
+		}
+		e.Fault("back-to-back-submissions-on-a-full-pool")
+	}
+}
+
 func runC14(e *sim.Env) {
+	if e.Chance(1, 12) {
+		runC14Full(e)
+		return
+	}
 	now := time.Now()
 	regimeOpt := []string{"overlap", "v2", "v1"}[e.Pick(3, 3, 1)]
 	net := gen.NewNet(e, now, gen.NetOpts{MaxHeight: 60, Regime: regimeOpt, AllowLo: 2, AllowHi: 6})
@@ -729,7 +808,7 @@ func kindOr(k string) string {
 func init() {
 	register(&Prop{
 		ID: "C14", Run: runC14, Quick: 1200, Thorough: 30000, Level: "exploration",
-		Rule:        "one run = drawn network and chain, then 6-24 pool submissions (v1 or v2 sets of 1-4 possibly dependent transactions: fresh / partly known / conflicting with the pool at a drawn position / invalid at a drawn position / all known) with lookups of every pooled v1 id, v2 id and unknown ids on both lookup functions, TransactionsForPartialBlock for a drawn subset of leaf hashes, agreement of listing and lookup, mutation and reordering of returned values and of the caller's own transactions after each call, and an occasional block assembled from the whole reported pool or a drawn prefix of it, after which the next call is a listing, a lookup by id of a transaction the block left pooled, or directly the next submission, so that the submission itself is the call that revalidates the pool; distinct = abstract trace of (mode, version, error, known); non-trivial = at least one non-fresh set",
+		Rule:        "one run = drawn network and chain, then 6-24 pool submissions (v1 or v2 sets of 1-4 possibly dependent transactions: fresh / partly known / conflicting with the pool at a drawn position / invalid at a drawn position / all known) with lookups of every pooled v1 id, v2 id and unknown ids on both lookup functions, TransactionsForPartialBlock for a drawn subset of leaf hashes, agreement of listing and lookup, mutation and reordering of returned values and of the caller's own transactions after each call, and an occasional block assembled from the whole reported pool or a drawn prefix of it, after which the next call is a listing, a lookup by id of a transaction the block left pooled, or directly the next submission, so that the submission itself is the call that revalidates the pool; 1 run in 12 instead fills the pool to its weight limit with ~0.9-block-weight transactions and then submits back to back (no query between) a fresh heavy transaction and an already pooled one: known=true means pooled afterwards; distinct = abstract trace of (mode, version, error, known); non-trivial = at least one non-fresh set",
 		Real:        []string{"chain.Manager (pool)", "chain.DBStore"},
 		Stub:        []string{"disk: simdisk.DB"},
 		Assumptions: []string{"pool contents are observed through PoolTransactions / V2PoolTransactions before and after each call"},
